@@ -287,3 +287,38 @@ pub fn run_c14(args: &[String]) {
     vout.finish();
     println!("{}", json!({"records": n, "value_records": nv}));
 }
+
+// -------------------------------------------------------------------------------------------------
+// C14, let machine: terms of spec/SmtLetParser.tla as text through the real parse_expr
+
+fn let_text(t: &J) -> String {
+    match t["k"].as_str().unwrap() {
+        "c" => if t["v"] == 0 { "#b00".into() } else { "#b01".into() },
+        "s" => t["n"].as_str().unwrap().to_string(),
+        "f" => format!("(bvxor {} {})", let_text(&t["a"]), let_text(&t["b"])),
+        _ => {
+            let bs: Vec<String> = t["bs"].as_array().unwrap().iter().map(|b| format!("({} {})", b["n"].as_str().unwrap(), let_text(&b["v"]))).collect();
+            format!("(let ({}) {})", bs.join(" "), let_text(&t["body"]))
+        }
+    }
+}
+
+pub fn run_smtlet(args: &[String]) {
+    let mut out = Out::new(flag(args, "--out").expect("--out"));
+    for (i, t) in read_ndjson(flag(args, "--in").expect("--in")).iter().enumerate() {
+        let text = let_text(t);
+        let mut ctx = Context::default();
+        let mut st: FxHashMap<String, ExprRef> = FxHashMap::default();
+        for n in ["a", "b"] { let s = ctx.bv_symbol(n, 2); st.insert(n.to_string(), s); }
+        let r = guarded(|| parse_expr(&mut ctx, &st, text.as_bytes()));
+        let rec = match r {
+            Ok(Ok(e)) => { let (n, ix) = export_many(&ctx, &[e]); json!({"ev":"Let","id":format!("l{i}"),"term":t,"text":text,"kind":"ok","nodes":n,"root":ix[0],"loc":""}) }
+            Ok(Err(e)) => json!({"ev":"Let","id":format!("l{i}"),"term":t,"text":text,"kind":"error","nodes":[],"root":0,"loc":format!("{e}").chars().take(120).collect::<String>()}),
+            Err((loc, msg)) => json!({"ev":"Let","id":format!("l{i}"),"term":t,"text":text,"kind":"panic","nodes":[],"root":0,"loc":format!("{loc}|{msg}")}),
+        };
+        out.put(&rec);
+    }
+    let n = out.n;
+    out.finish();
+    println!("{}", json!({"records": n}));
+}
